@@ -256,6 +256,8 @@ def cdb_make(pairs):
 
 
 def cdb_corrupt(rnd, b):
+    if rnd.random() < 0.35:
+        return cdb_corrupt_directed(rnd, b)
     b = bytearray(b)
     k = rnd.random()
     if k < 0.25:
@@ -272,6 +274,43 @@ def cdb_corrupt(rnd, b):
         if len(b) > 2056:
             p = rnd.randrange(2048, len(b) - 8)
             b[p:p + 4] = rnd.choice([b"\xff\xff\xff\xff", b"\xf0\xff\xff\xff", b"\0\0\0\x80"])
+    return bytes(b)
+
+
+def interesting_length(rnd, L=0):
+    """32-bit values at which a length computation done in int, unsigned int or size_t changes its mind"""
+    k = rnd.random()
+    if k < 0.35:
+        return (1 << 32) - rnd.randint(1, 64)
+    if k < 0.55:
+        return ((1 << 31) + rnd.randint(-40, 40)) & 0xffffffff
+    if k < 0.7:
+        return max(0, L + rnd.randint(-16, 16))
+    return rnd.choice([0, 1, 0xffffffff, 0x7fffffff, 0x80000000, 0xfffffff0, 0xffff, 0x10000, 0xffffff])
+
+
+def cdb_corrupt_directed(rnd, b):
+    """damage the header (key length / data length) of one record, or one hash-table slot, with an interesting length"""
+    b = bytearray(b)
+    L = len(b)
+    if L < 2048 + 8:
+        return bytes(b)
+    end_records = min(struct.unpack_from("<I", b, 8 * i)[0] for i in range(256))
+    recs = []
+    p = 2048
+    while p + 8 <= min(end_records, L):
+        kl, dl = struct.unpack_from("<II", b, p)
+        recs.append(p)
+        p += 8 + kl + dl
+        if len(recs) > 4096:
+            break
+    if recs and rnd.random() < 0.8:
+        p = rnd.choice(recs)
+        f = 4 if rnd.random() < 0.7 else 0
+        struct.pack_into("<I", b, p + f, interesting_length(rnd, L) & 0xffffffff)
+    else:
+        p = 4 * rnd.randrange(0, 512)
+        struct.pack_into("<I", b, p, interesting_length(rnd, L) & 0xffffffff)
     return bytes(b)
 
 
